@@ -4,6 +4,7 @@ package main
 
 import (
 	"go/types"
+	"math"
 )
 
 func init() {
@@ -159,4 +160,28 @@ func extSortStrings(fr *frame, a []value) value {
 		}
 	}
 	return nil
+}
+
+func init() {
+	f1 := func(f func(float64) float64) externalFn {
+		return func(fr *frame, a []value) value { return f(a[0].(float64)) }
+	}
+	f2 := func(f func(float64, float64) float64) externalFn {
+		return func(fr *frame, a []value) value { return f(a[0].(float64), a[1].(float64)) }
+	}
+	for k, v := range map[string]externalFn{
+		"math.Abs": f1(math.Abs), "math.Floor": f1(math.Floor), "math.Ceil": f1(math.Ceil), "math.Sqrt": f1(math.Sqrt),
+		"math.Log": f1(math.Log), "math.Exp": f1(math.Exp), "math.Trunc": f1(math.Trunc), "math.Log2": f1(math.Log2), "math.Log10": f1(math.Log10),
+		"math.Pow": f2(math.Pow), "math.Mod": f2(math.Mod), "math.Max": f2(math.Max), "math.Min": f2(math.Min),
+		"math.Float64bits":     func(fr *frame, a []value) value { return math.Float64bits(a[0].(float64)) },
+		"math.Float64frombits": func(fr *frame, a []value) value { return math.Float64frombits(a[0].(uint64)) },
+		"math.Float32bits":     func(fr *frame, a []value) value { return math.Float32bits(a[0].(float32)) },
+		"math.Float32frombits": func(fr *frame, a []value) value { return math.Float32frombits(a[0].(uint32)) },
+		"math.Inf":             func(fr *frame, a []value) value { return math.Inf(int(asInt64(a[0]))) },
+		"math.NaN":             func(fr *frame, a []value) value { return math.NaN() },
+		"math.IsNaN":           func(fr *frame, a []value) value { return math.IsNaN(a[0].(float64)) },
+		"math.IsInf":           func(fr *frame, a []value) value { return math.IsInf(a[0].(float64), int(asInt64(a[1]))) },
+	} {
+		externals[k] = v
+	}
 }
